@@ -9,7 +9,14 @@ def mk_state_case(ctx, state, s, tol, origin):
     """a parse that starts from the walker's default state updated by one sub_context(**state) call"""
     import tokharness as T
     upd = w_list(list(state.items()), lambda kv: [T.UPDATE_TAG[kv[0]]] + T.w_value(kv[0], kv[1]))
-    wire = [102] + ([0] if ctx == 'default' else [1] + docgen.ctx_wire(ctx)) + upd + w_str(s) + w_bool(tol)
+    try:
+        wire = [102] + ([0] if ctx == 'default' else [1] + docgen.ctx_wire(ctx)) + upd + w_str(s) + w_bool(tol)
+    except Exception as e:              # translator refusal: see mk_case
+        import common
+        msg = '%s: %s' % (type(e).__name__, str(e)[:200])
+        if msg not in common.TRANSLATOR_ERRORS:
+            common.TRANSLATOR_ERRORS.append(msg)
+        wire = [999]
     return {'wire': wire, 'desc': {'ctx': ctx, 's': s, 'tolerant': tol, 'origin': origin, 'state': state}, 'nt': None}
 
 
@@ -52,7 +59,16 @@ def mk_case(ctx, s, tol, origin):
     if ctx == 'default':
         wire = P.w_parse_default(s, tol)
     else:
-        wire = P.w_parse_custom(docgen.ctx_wire(ctx), s, tol)
+        try:
+            wire = P.w_parse_custom(docgen.ctx_wire(ctx), s, tol)
+        except Exception as e:
+            # the fail-closed context translator refuses this database (something it relies on has changed): the tie
+            # between model and code is broken for it; the case still goes to the property oracle on the real code
+            import common
+            msg = '%s: %s' % (type(e).__name__, str(e)[:200])
+            if msg not in common.TRANSLATOR_ERRORS:
+                common.TRANSLATOR_ERRORS.append(msg)
+            wire = [999]
     return {'wire': wire, 'desc': {'ctx': ctx, 's': s, 'tolerant': tol, 'origin': origin}, 'nt': None}
 
 
@@ -227,6 +243,11 @@ def deep_cases(tol):
             n = levels // per
             out.append(mk_case('default', op * n + 'a' + cl * n, tol, 'deep-nesting'))
             out.append(mk_case('default', op * n + 'a' + cl * (n - 1), tol, 'deep-nesting'))     # one closing short
+    # a long environment name that is never closed (the name matcher has to fail, in linear time)
+    for name in ('a' * 24, 'a' * 40, 'ab ' * 14, 'center This whole line is meant to be centered on the page', 'x.y:z/' * 8):
+        for tail in ('', ',', '=b}', '\n', '\\x', ' '):
+            out.append(mk_case('default', 'z\\begin{' + name + tail, tol, 'deep-nesting'))
+            out.append(mk_case('default', '\\end{' + name + tail + ' q', tol, 'deep-nesting'))
     for op, cl, per in DEEP[:4]:
         out.append({'wire': [999], 'nt': True,
                     'desc': {'ctx': 'default', 's': op * 400 + 'a' + cl * 400, 'tolerant': tol,
